@@ -68,7 +68,6 @@ theorem step_inv (t0 : Int) (ms : List SMsg) (hN : startOf ms ms.length < 214748
     rw [List.append_nil]
     exact ⟨hrx', dl, hg.mono hsub, fun s => (hS s).mono hsub, hO⟩
   · have hpa : p ∉ arr := fun h => hk (hmem_iff.2 h)
-    simp only [hdup, hk, decide_false, Bool.false_eq_true, if_false]
     have hSs : SInv t0 ms arr (F t0 ms p).sid ((dictGet r.streams (F t0 ms p).sid).getD {}).reasm dl out :=
       hS _
     have hfresh : ∀ x ∈ ((dictGet r.streams (F t0 ms p).sid).getD {}).reasm, x.tsn ≠ (F t0 ms p).tsn := by
@@ -76,6 +75,15 @@ theorem step_inv (t0 : Int) (ms : List SMsg) (hN : startOf ms ms.length < 214748
       obtain ⟨q, hqA, hqv, hqe, _⟩ := hSs.mem x hx
       rw [hqe] at e
       exact hpa (frag_tsn_inj t0 ms hN32 q p hqv hp e ▸ hqA)
+    -- the "still waiting in the reassembly queue" guard of the handler never fires here
+    have hguard : (((dictGet r.streams (F t0 ms p).sid).getD {}).reasm.any
+        fun x => x.tsn == tsnN t0 (flat ms p)) = false := by
+      rw [List.any_eq_false]
+      intro x hx
+      have := hfresh x hx
+      rw [htsn] at this
+      simpa using this
+    simp only [hdup, hk, decide_false, Bool.false_eq_true, if_false, hguard]
     obtain ⟨s1, hadd, hseq1, hmem1, hnd1⟩ := addChunk_spec _ (F t0 ms p) hfresh
     obtain ⟨msgs, s2, hpop, hsteps⟩ := popMessages_ok s1
     rw [hadd]; simp only []
